@@ -229,6 +229,65 @@ def classify_compile_failure(errs):
             cls = "E:" + (e["code"] or "other")
     return cls
 
+
+# ---------------------------------------------------------------------------------------------- seeded random definitions
+RULES = ["none", "lowercase", "UPPERCASE", "PascalCase", "camelCase", "snake_case", "SCREAMING_SNAKE_CASE", "kebab-case",
+         "SCREAMING-KEBAB-CASE"]
+
+def random_defs(seed, n):
+    """Definitions in the vocabulary of SchemaRelGen but beyond its bounds: 2-4 fields / variants, every attribute drawn
+    independently, further name styles.  Well-formedness (what serde_derive accepts, distinct keys, distinguishable
+    untagged shapes) is kept by construction, as in WFStruct / WFEnum."""
+    import random
+    rng = random.Random(1000003 * seed + 17)
+    fstyles = ["a", "x2_y", "b_c3", "long_name_here", "zz", "q9"]
+    vstyles = ["A", "FooBar", "Nt2X", "HTTPOk", "Ab", "Zz9Y"]
+    out = []
+    for _ in range(n):
+        ra = rng.choice(RULES) if rng.random() < 0.7 else "none"
+        if rng.random() < 0.6:
+            nf = rng.randint(2, 4)
+            names = rng.sample(fstyles + [rng.choice(["my_field", "myField"])], nf)
+            fields, have_flat = [], False
+            for i, nm in enumerate(names, 1):
+                f = {"name": list(nm), "style": nm, "ty": rng.choice(["str", "str", "int", "inner"]), "opt": rng.random() < 0.4,
+                     "rclass": rng.choice(["none"] * 8 + ["plain", "plain", "dash"]), "skip": rng.choice(["none"] * 6 + ["skip", "ser", "de", "de"]),
+                     "ssif": False, "fdefault": rng.random() < 0.25, "flatten": False}
+                f["ssif"] = f["opt"] and rng.random() < 0.5
+                if not have_flat and rng.random() < 0.06:
+                    have_flat = True
+                    f.update(ty="inner", opt=False, rclass="none", skip="none", ssif=False, fdefault=False, flatten=True)
+                if f["ty"] == "inner" and f["skip"] == "de":
+                    f["skip"] = "none"
+                f["rename"] = {"none": [], "plain": ["r", str(i)], "dash": ["r", "-", str(i)]}[f["rclass"]]
+                fields.append(f)
+            out.append({"kind": "struct", "ra": ra, "cdefault": rng.random() < 0.3, "fields": fields})
+        else:
+            tg = rng.choice(["external", "internal", "adjacent", "untagged"])
+            nv = rng.randint(2, 4)
+            names = rng.sample(vstyles, nv)
+            vs, seen = [], set()
+            for i, nm in enumerate(names, 1):
+                sh, pl = rng.choice([("unit", "none"), ("newtype", "str"), ("newtype", "inner"), ("struct", "none")])
+                if tg == "internal" and (sh, pl) == ("newtype", "str"):
+                    pl = "inner"
+                if tg == "untagged":
+                    if (sh, pl) in seen:
+                        continue
+                    seen.add((sh, pl))
+                rc = "plain" if rng.random() < 0.15 else "none"
+                vs.append({"name": list(nm), "style": nm, "shape": sh, "payload": pl, "rclass": rc,
+                           "rename": ["r", str(i)] if rc == "plain" else []})
+            out.append({"kind": "enum", "ra": ra, "tagging": tg, "variants": vs})
+    for d in out:
+        d["random"] = True
+        if d["kind"] == "struct":
+            d["nontrivial"] = d["cdefault"] or any(f["opt"] or f["skip"] != "none" or f["fdefault"] or f["flatten"] or f["ty"] == "inner"
+                                                    or f["rclass"] != "none" for f in d["fields"])
+        else:
+            d["nontrivial"] = d["tagging"] != "external" or any(v["shape"] != "unit" or v["rclass"] != "none" for v in d["variants"])
+    return out
+
 # ---------------------------------------------------------------------------------------------- pipeline
 def suspicious(d):
     """Families suspected not to compile (DESIGN §5).  Only an optimisation: they are compiled first with `cargo check`
@@ -307,7 +366,7 @@ def observe(ctx, defs):
     lines = []
     for d in defs:
         i = d["id"]
-        scn = {k: v for k, v in d.items() if k not in ("id", "nontrivial")}
+        scn = {k: v for k, v in d.items() if k not in ("id", "nontrivial", "random")}
         if i in failed:
             obs = failed[i]
         elif i in out:
@@ -368,6 +427,10 @@ def run(ctx):
         raise ToolError("SchemaRelGen emitted no definition")
     # deterministic order independent of TLC's set enumeration
     defs = sorted(g.lines, key=lambda d: json.dumps(d, sort_keys=True))
+    n_tlc = len(defs)
+    defs += random_defs(ctx.seed, 150 if q else 900)
+    ctx.extra["scenarios_from_tlc"] = n_tlc
+    ctx.extra["scenarios_random"] = len(defs) - n_tlc
     for i, d in enumerate(defs):
         d["id"] = i
         if d.get("nontrivial"):
